@@ -24,6 +24,7 @@ type Backend struct {
 }
 
 type BConn struct {
+	slowStart, slowEvery time.Duration
 	C      net.Conn
 	mu     sync.Mutex
 	cond   *sync.Cond
@@ -69,9 +70,27 @@ func (b *Backend) loop() {
 	}
 }
 
+// SetSlow makes this host a busy one from now on: it lets `start` pass before it reads again and then takes at most
+// 64 KiB every `every`.
+func (c *BConn) SetSlow(start, every time.Duration) {
+	c.mu.Lock()
+	c.slowStart, c.slowEvery = start, every
+	c.mu.Unlock()
+}
+
 func (c *BConn) read() {
 	buf := make([]byte, 65536)
 	for {
+		c.mu.Lock()
+		st, ev := c.slowStart, c.slowEvery
+		c.slowStart = 0
+		c.mu.Unlock()
+		if st > 0 {
+			time.Sleep(st)
+		}
+		if ev > 0 {
+			time.Sleep(ev)
+		}
 		n, err := c.C.Read(buf)
 		c.mu.Lock()
 		if n > 0 {
